@@ -3,6 +3,8 @@ import CoapVerif.Lemmas.TimerSim
 import CoapVerif.Lemmas.SchedInv
 import CoapVerif.Lemmas.Conserve
 import CoapVerif.Lemmas.PduFixed
+import CoapVerif.Lemmas.MsgHold
+import CoapVerif.Lemmas.MsgLayerW
 /-
 C06 — the retransmission queue: every pending message is (re)transmitted on the RFC 7252 §4.2 schedule and
 ends in exactly one outcome.
@@ -13,7 +15,9 @@ ends in exactly one outcome.
 Sections: (1) queue abstraction, (2) coap_calc_timeout, (3) returned wait, (4) steps of coap_retransmit and the due
 loop, one message end to end, (5) S-level schedule / outcomes, (6) exact simulation M ⊑ S for any number of messages
 and sessions, (7) schedule, single outcome, never-sent-again, fixed PDU/timeout, due-fires on M for the whole C06
-alphabet including the NSTART gate.
+alphabet including the NSTART gate, (8) PDU fields / timeout never modified, (9) a message waiting for an NSTART slot is
+never stranded, (10) socket-write failures (`Model/MsgLayerW.lean`): a retransmission that cannot be written is a lost
+datagram.
 
 Property theorems only; helper lemmas live in CoapVerif/Lemmas/SendQueue.lean (queue, S), TimerSim.lean (simulation),
 SchedInv.lean (schedule invariant on M), Conserve.lean (conservation on M).
@@ -1144,5 +1148,164 @@ delay queue; both still have the PDU fields and the timeout (T = 3000, T = 2000)
 example : (Msg.run (Msg.init 0 [{}, {}]) pevs).q.nodes.map pduOf = [(2, 2, true, 3000)] ∧
     ((Msg.run (Msg.init 0 [{}, {}]) pevs).getS 0).delayq.map pduOf = [(1, 1, true, 2000)] ∧
     ((Msg.run (Msg.init 0 [{}, {}]) pevs).getS 0).delayq.map (·.cnt) = [1] := by decide
+
+/-! ## (9) a Confirmable waiting for an NSTART slot is never stranded — whole alphabet -/
+open Coap.Msg Coap.MsgX in
+/-- **m_delayed_has_pending** ("every Confirmable accepted for sending is transmitted", for the messages the NSTART gate
+holds back): after EVERY event list of the model (the whole alphabet, give-ups inside the due loop, hold / connect /
+disconnect included), if an established session with NSTART ≥ 1 still holds a message in its delay queue, then a
+Confirmable of that session is pending in the send queue.  So the send queue is not empty — `coap_io_prepare_io` does
+not report "nothing to wait for" (`wait_le_every_deadline`, `m_wait_exact_and_positive`) — and whatever ends that pending
+message (ACK, RST, TOO_MANY_RETRIES: `m_single_outcome`) releases its slot in the same step (`no_idle_hold` is kept by
+every event), which transmits the held message.  A give-up that does not let the next held message in leaves a state this
+theorem excludes. -/
+theorem m_delayed_has_pending (now0 : Nat) (sess : List Sess) (evs : List Ev) (s : Nat)
+    (hss : ∀ se ∈ sess, se.conActive = 0 ∧ se.delayq = [] ∧ se.nstart ≤ 255) (hs : s < sess.length)
+    (he : ((run (init now0 sess) evs).getS s).est = true) (hn : 1 ≤ ((run (init now0 sess) evs).getS s).nstart)
+    (hd : ((run (init now0 sess) evs).getS s).delayq ≠ []) :
+    ∃ n ∈ (run (init now0 sess) evs).q.nodes, n.sess = s ∧ n.con = true := by
+  have hw := wf_run evs _ (wf_init now0 sess hss)
+  have hnih := nih_run evs _ (wf_init now0 sess hss) (nih_init now0 sess hss)
+  have hlt : s < (run (init now0 sess) evs).sess.length := by rw [run_len]; exact hs
+  generalize run (init now0 sess) evs = l at *
+  cases hq : (l.getS s).delayq with
+  | nil => exact absurd hq hd
+  | cons x rest =>
+    have h1 := hnih s hlt he x (by simp [hq])
+    have h2 := hw.2 s hlt
+    have hpos : 0 < inflight l s := by omega
+    unfold inflight at hpos
+    obtain ⟨n, hn'⟩ := List.exists_mem_of_length_pos hpos
+    have hm := List.mem_filter.mp hn'
+    exact ⟨n, hm.1, by simpa using hm.2, hw.1.mem hm.1⟩
+
+open Coap.Msg in
+/-- non-vacuity of `m_delayed_has_pending`: in the gated witness, after message 2 was submitted (3 events), session 0 holds
+message 2 and message 1 is pending; after the give-up of message 1 (7 events) nothing is held any more -/
+example : (((run (init 0 [{ maxRtx := 1 }]) (gevs.take 3)).getS 0).delayq.map (·.mid) = [2]) ∧
+    ((run (init 0 [{ maxRtx := 1 }]) (gevs.take 3)).q.nodes.map (·.mid) = [1]) ∧
+    (((run (init 0 [{ maxRtx := 1 }]) (gevs.take 7)).getS 0).delayq = []) ∧
+    ((run (init 0 [{ maxRtx := 1 }]) (gevs.take 7)).q.nodes.map (·.mid) = [2]) := by decide
+
+/-! ## (10) socket-write failures: a retransmission that cannot be written is a datagram lost on the wire
+
+`Model/MsgLayerW.lean` gives the model one more input — what `coap_socket_send()` returns for each datagram (ECONNREFUSED
+after an ICMP error, ENOBUFS, …).  An `Out.tx` there is a write ATTEMPT; the ghost list `failed` marks the attempts that
+failed.  `dev` (ghost) is set exactly when the write of a FIRST transmission fails: `coap_send` then refuses the message
+(it was never accepted) and the drain loop of `coap_session_connected` stops (`break`) — the state then differs from
+the base model's by design.  Every other failure (any number of failed RETRANSMISSIONS of any messages) is invisible to
+the message layer. -/
+open Coap.Msg Coap.MsgW in
+/-- **w_failed_retransmission_is_lost_datagram** (every state, every oracle): while retransmissions are left,
+`coap_retransmit` with a write that fails does to the send queue, to the sessions (`con_active`, delay queues) and to
+the output list exactly what it does with a write that succeeds: the node is back in the send queue with
+`retransmit_cnt + 1` and the deadline `now + (T << cnt)` (`retransmit_step`), the message keeps its NSTART slot, and
+the attempt is in the outputs.  (A `coap_retransmit` that drops the node when the write fails, or forgets the slot,
+contradicts this.) -/
+theorem w_failed_retransmission_is_lost_datagram (lw : LW) (n : Node) (hc : n.cnt < (lw.l.getS n.sess).maxRtx) :
+    (retransmitW lw n).l = retransmit lw.l n ∧ (retransmitW lw n).dev = lw.dev :=
+  retransmitW_resend lw n hc
+
+open Coap.Msg Coap.MsgW in
+/-- **w_run_tracks_m_partial**: for EVERY event list and EVERY write oracle, from any state: unless the write of a first
+transmission failed (`dev`), the run of the write-failure model ends in exactly the state — send queue with all
+deadlines and counters, `con_active`, delay queues, clock, output list — of the base model's run over the same events.
+Failed retransmissions, however many and wherever, change nothing but the ghost marks.
+
+`_partial`: the statement without the `dev` hypothesis is false by design (a `coap_send` whose first write fails is
+refused; a failed write stops the drain loop).  Full statement:
+  `∀ lw evs, (runW lw evs).l = Msg.run lw.l evs`. -/
+theorem w_run_tracks_m_partial (lw : LW) (evs : List Ev) (h : (runW lw evs).dev = false) :
+    (runW lw evs).l = run lw.l evs :=
+  (runW_tracks evs lw h).2
+
+open Coap.Msg Coap.MsgW in
+/-- **w_no_failure_is_m** (the write-failure model is a conservative extension, full): with an oracle that never says
+"fails" (in particular the empty one), for EVERY event list from any state, the write-failure model does exactly what
+the base model does — so every theorem of sections (3)–(9) is a theorem about it, and the comparison of the compiled code
+with `Coap.MsgW.stepW` on lines with failing writes ties the same transcription as the comparison with `Coap.Msg.step`. -/
+theorem w_no_failure_is_m (lw : LW) (evs : List Ev) (hnf : ∀ b ∈ lw.wf, b = false) (hd : lw.dev = false) :
+    (runW lw evs).l = run lw.l evs ∧ (runW lw evs).dev = false := by
+  have hq := runW_quiet evs lw hnf
+  have hdev : (runW lw evs).dev = false := by rw [hq.2]; exact hd
+  exact ⟨(runW_tracks evs lw hdev).2, hdev⟩
+
+open Coap.Msg Coap.MsgW Coap.Sim Coap.Sched in
+/-- **w_single_outcome_partial** (`m_single_outcome` with write failures): in every run over the C06 alphabet in which
+any writes of RETRANSMISSIONS fail, for every (session, mid): accepted `coap_send`s = outcome NACKs (TOO_MANY_RETRIES /
+RST) + completions by ACK / response / invalid code + nodes in the send queue + nodes in the delay queue.  A message
+whose retransmission could not be written is still exactly one of: pending, waiting, concluded once — never lost.
+(`_partial`: as `w_run_tracks_m_partial`.) -/
+theorem w_single_outcome_partial (now0 : Nat) (sess : List Sess) (wf : List Bool) (evs : List Ev)
+    (hs : ∀ se ∈ sess, SessOk se) (hin : RunG (init now0 sess) evs)
+    (hdev : (runW (initW now0 sess wf) evs).dev = false) (s mid : Nat) :
+    let lw := runW (initW now0 sess wf) evs
+    accC s mid (init now0 sess) evs =
+      nackC s mid lw.l.out + remC s mid (init now0 sess) evs + pendC s mid lw.l.q.nodes +
+        midC mid (lw.l.getS s).delayq := by
+  intro lw
+  have h := w_run_tracks_m_partial (initW now0 sess wf) evs hdev
+  simp only [lw, h]
+  exact m_single_outcome now0 sess evs hs hin s mid
+
+open Coap.Msg Coap.MsgW Coap.Sim Coap.Sched in
+/-- **w_attempts_on_schedule_partial** (`m_schedule_all` + `m_giveup_after_all_retransmissions` with write failures): in
+every punctual run over the C06 alphabet in which any writes of retransmissions fail, every write ATTEMPT of a
+Confirmable — written or not — is at its slot `t0 + (2^k − 1)·T` of the ONE `T` drawn at its `coap_send`, `k ≤
+MAX_RETRANSMIT`; and TOO_MANY_RETRIES is only reported after all `MAX_RETRANSMIT + 1` attempts were made, each at its
+slot, exactly at the slot after the last.  A failed write neither shifts the schedule nor costs or adds a retransmission.
+(`_partial`: as `w_run_tracks_m_partial`.) -/
+theorem w_attempts_on_schedule_partial (now0 : Nat) (sess : List Sess) (wf : List Bool) (evs : List Ev)
+    (hs : ∀ se ∈ sess, SessOk se) (hin : RunG (init now0 sess) evs) (hpu : Punctual (init now0 sess) evs)
+    (hdev : (runW (initW now0 sess wf) evs).dev = false) :
+    let out := (runW (initW now0 sess wf) evs).l.out
+    (∀ t s mid k, Out.tx t s mid k true ∈ out →
+      ∃ t0 r, Ev.submit s true mid r ∈ evs ∧ Out.tx t0 s mid 0 true ∈ out ∧
+        t = sched t0 (calcTimeout (parOf sess s).atI (parOf sess s).atF (parOf sess s).arfI (parOf sess s).arfF r) k ∧
+        k ≤ (parOf sess s).maxRtx) ∧
+    (∀ t s mid, Out.nack t s .retries mid true ∈ out →
+      ∃ t0 r, Ev.submit s true mid r ∈ evs ∧
+        (∀ j, j ≤ (parOf sess s).maxRtx →
+          Out.tx (sched t0 (calcTimeout (parOf sess s).atI (parOf sess s).atF (parOf sess s).arfI
+            (parOf sess s).arfF r) j) s mid j true ∈ out) ∧
+        t = sched t0 (calcTimeout (parOf sess s).atI (parOf sess s).atF (parOf sess s).arfI (parOf sess s).arfF r)
+          ((parOf sess s).maxRtx + 1)) := by
+  intro out
+  have h := w_run_tracks_m_partial (initW now0 sess wf) evs hdev
+  simp only [out, h]
+  exact ⟨m_schedule_all now0 sess evs hs hin hpu, m_giveup_after_all_retransmissions now0 sess evs hs hin hpu⟩
+
+/-- witness run with write failures: MAX_RETRANSMIT 2, NSTART 1; message 2 waits behind message 1; the writes number 1 and 2
+(both retransmissions of message 1) fail; message 1 is given up at 14000 and message 2 goes out at that instant -/
+def wfevs : List Msg.Ev :=
+  [.submit 0 true 1 0, .submit 0 true 2 0, .setNow 2000, .prepare, .setNow 6000, .prepare, .setNow 14000, .prepare]
+
+open Coap.Msg Coap.MsgW Coap.Sim Coap.Sched in
+/-- non-vacuity of section (10): the witness is in scope and punctual, no first transmission fails (`dev = false`), the two
+failed attempts are marked (output positions 3 and 5, counted from the oldest: the attempts at 2000 and 6000), message 1 still gets its ONE
+TOO_MANY_RETRIES after 3 attempts and message 2 is transmitted; with a failing FIRST write `coap_send` refuses
+(`dev = true`, nothing queued) -/
+example : (∀ se ∈ [({ maxRtx := 2 } : Sess)], SessOk se) ∧ RunG (init 0 [{ maxRtx := 2 }]) wfevs ∧
+    Punctual (init 0 [{ maxRtx := 2 }]) wfevs ∧
+    (runW (initW 0 [{ maxRtx := 2 }] [false, true, true]) wfevs).dev = false ∧
+    (runW (initW 0 [{ maxRtx := 2 }] [false, true, true]) wfevs).failed = [5, 3] ∧
+    (runW (initW 0 [{ maxRtx := 2 }] [false, true, true]) wfevs).l.out.filterMap obsM =
+      [.nackRetries 14000 0 1, .tx 14000 0 2 0 true, .tx 6000 0 1 2 true, .tx 2000 0 1 1 true, .tx 0 0 1 0 true] ∧
+    (runW (initW 0 [{ maxRtx := 2 }] [false, true, true]) wfevs).l.q.nodes.map (·.mid) = [2] ∧
+    (runW (initW 0 [{}] [true]) [.submit 0 true 1 0]).dev = true ∧
+    (runW (initW 0 [{}] [true]) [.submit 0 true 1 0]).l.q.nodes = [] ∧
+    (runW (initW 0 [{}] [true]) [.submit 0 true 1 0]).l.out = [.sub none, .tx 0 0 1 0 true] := by decide
+
+open Coap.Msg Coap.MsgW in
+/-- **w_drain_break_strands_witness** (open finding `drain_break_strands_delayed`, the domain the `_partial` theorems of this
+section exclude through `dev`): a session that is not established holds a NON (101) and a Confirmable (102);
+`coap_session_connected` takes the NON out of the delay queue, its write fails, the NON is deleted and the loop stops
+(`if (bytes_written < 0) break;`).  No Confirmable of the session is in flight, so nothing will call
+`coap_session_connected` again: the session is established, `con_active = 0`, the send queue is empty,
+`coap_io_prepare_io` returns 0 — and the accepted Confirmable 102 is still in the delay queue. -/
+theorem w_drain_break_strands_witness :
+    let lw := runW (initW 0 [{}] [true]) [.hold 0, .submit 0 false 101 0, .submit 0 true 102 0, .connect 0, .prepare]
+    lw.dev = true ∧ (lw.l.getS 0).est = true ∧ (lw.l.getS 0).conActive = 0 ∧
+    (lw.l.getS 0).delayq.map (·.mid) = [102] ∧ lw.l.q.nodes = [] ∧ lw.l.out.head? = some (.wait 0 0) := by decide
 
 end Coap.C06
